@@ -47,6 +47,9 @@ THEOREMS = {
     "C20_model_is_source_create_single_treatment_effect_map": "the Gallina translation of the WHOLE function batchie.data.create_single_treatment_effect_map, regenerated from /repo's current data.py on this run (Generated/SrcSynergy.v), equals the model effect_map for all inputs (arity = treatment_ids.shape[1]): the arity raise, the mask `np.sum(ids == CONTROL, axis=1) == shape[1] - 1` with the sentinel read from common.py, the three masked arrays (IndexError on a length mismatch), np.sort(...)[:, -1] = row maximum, both loops over np.unique, the control entry 1.0 + continue, the `&` mask, np.any + continue, the mean, the dict stores in insertion order",
     "C20_model_is_source_create_single_treatment_effect_array": "the translation of the whole function create_single_treatment_effect_array (call of the translated map, np.ones_like, both enumerate loops, dict read with its KeyError, result[idx, treatment_idx] = ...) equals the model effect_array for all inputs",
     "C20_model_is_source_calculate_synergy": "the translation of the WHOLE function batchie.synergy.calculate_synergy, regenerated from /repo's current synergy.py on this run, equals the model calculate_synergy for all inputs and both modes: the three raises, the call of the translated effect map, the mask and `~mask` selections, the loop over the multi-treatment rows (enumerate(zip(...)), the loop variable `observation` rebinding the parameter), the non-control ids, the inner loop with the strict raise / lenient continue, the length comparison + continue, np.prod(single_effects) - observation, the three appends, np.array of the three result lists (ragged id rows refused)",
+    "C20_model_is_source_mse": "the translation of ModelEvaluation.mse (through the translated properties predictions / observations: `((P - o[:, None]) ** 2).mean()`), regenerated from /repo's models/main.py on this run (Generated/SrcMetrics.v), equals the model ev_mse for every evaluation object the constructor builds",
+    "C20_model_is_source_mse_variance": "the translation of ModelEvaluation.mse_variance (`np.var(((P - o[:, None]) ** 2).mean(axis=1))`) equals ev_mse_variance for every constructed evaluation",
+    "C20_model_is_source_inter_chain_mse_variance": "the translation of ModelEvaluation.inter_chain_mse_variance (the loop over np.unique(chain_ids), the mask chain_ids == chain_id, the column selection P[:, mask], the per-chain mean, the append, np.var(np.array(mses))) equals ev_inter_chain for every constructed evaluation",
     "C20_source_synergy_def": "hence, on well-formed input, the TRANSLATED calculate_synergy equals the row-by-row definition synergy_def (C20_synergy_def composed with the link)",
     "C20_source_effect_array_def": "hence, on well-formed input, the TRANSLATED create_single_treatment_effect_array equals effect_array_def",
 }
@@ -86,8 +89,18 @@ EXPLANATION = ("Model: Model/Metrics.v, Model/Synergy.v, Model/Corr.v; definitio
                "np.ones_like(a, dtype=float); the literal 1.0; logger.warning ignored.  The links prove that none of the raising "
                "primitives raises where the model does not (equal lengths wherever `&` and a mask are applied, a non-empty selection "
                "wherever the mean is taken).  The differential cases emap / earr / syn exercise exactly these primitives on numpy. "
-               "Not linked (left to the correspondence): ModelEvaluation.mse / mse_variance / inter_chain_mse_variance, "
-               "retrospective.calculate_mse, generate_full_combinatoric_space, correlation_matrix.")
+               "ModelEvaluation.mse / mse_variance / inter_chain_mse_variance and the properties predictions / observations / chain_ids "
+               "(models/main.py) are likewise re-translated (configurations C20_EV_*, Generated/SrcMetrics.v) and proved equal to ev_mse / "
+               "ev_mse_variance / ev_inter_chain for every evaluation the constructor builds (hypothesis mk_eval ... = Ok e, a fact about "
+               "every reachable ModelEvaluation; m = predictions.shape[1]); the loop, the append and the property reads come from the "
+               "translation.  Trusted primitives there (end of Model/Metrics.v), one numpy call each, NaN = Err 6: self._predictions / "
+               "_observations / _chain_ids = the object's stored arrays; `o[:, None]` = the (n, 1) view; `P - column` broadcast along "
+               "rows (equal row counts, else Err); `x ** 2` elementwise; x.mean() = mean of all entries (NaN when none); "
+               "x.mean(axis=1) = per-row means (NaN for an empty row, [] for no rows); np.var = population variance (NaN when empty); "
+               "np.unique; `a == c` elementwise; `P[:, mask]` = the masked columns of every row, IndexError unless the mask has "
+               "shape[1] entries; np.array of a list of floats = the list.  "
+               "Not linked (left to the correspondence): retrospective.calculate_mse / predict_viability_avg, "
+               "generate_full_combinatoric_space, correlation_matrix, mean_predictions, save_h5 / load_h5.")
 
 TAGS = {1: "ValueError", 4: "IndexError", 5: "KeyError"}
 NAN = "nan"
